@@ -11,7 +11,9 @@ flat-file definition (GenBank release notes §3.4, INSDC feature table definitio
   * `ORIGIN`, sequence lines with a 9-column right-justified counter and blank-separated blocks;
   * `//`.
 
-A `RecLayout` holds the writer's free choices: the six gaps of the LOCUS line, where each text block
+A `RecLayout` holds the writer's free choices: which empty standard blocks are left out, where the
+extra keyword blocks (DBLINK, COMMENT, …) stand between LOCUS and FEATURES, whether a qualifier value
+is quoted, unquoted (`/codon_start=1`) or absent (`/pseudo`), the six gaps of the LOCUS line, where each text block
 is wrapped (a set of positions; a break happens only at a blank both of whose neighbours are not
 blank — the format cannot represent any other break), where a `/translation` value is cut (anywhere between two non-blank characters), where a
 location is cut (only after a comma), block length and blocks per line of the sequence, and whether
@@ -99,6 +101,7 @@ structure RefLayout where
 structure FeatLayout where
   loc : List Nat := []
   quals : List (List Nat) := []
+  styles : List Nat := []        -- per qualifier: 0 `/k="v"`, 1 `/k=v` (unquoted), 2 `/k` (no value)
   deriving Repr, Inhabited
 
 structure RecLayout where
@@ -111,6 +114,13 @@ structure RecLayout where
   organism : List Nat := []
   refs : List RefLayout := []
   extras : List (List Nat) := []
+  extraCuts : List Nat := []     -- how many extra blocks go before DEFINITION, ACCESSION, VERSION, KEYWORDS,
+                                 -- SOURCE, the first REFERENCE (the remaining ones follow the references)
+  omitDefinition : Bool := false -- an empty DEFINITION / ACCESSION / VERSION / KEYWORDS / SOURCE+ORGANISM block is
+  omitAccession : Bool := false  -- left out altogether instead of being written as the bare keyword
+  omitVersion : Bool := false
+  omitKeywords : Bool := false
+  omitSource : Bool := false
   feats : List FeatLayout := []
   originTrail : Bool := false    -- `ORIGIN` followed by six blanks, as NCBI writes it
   blockLen : Nat := 9            -- letters per block minus one
@@ -208,15 +218,22 @@ def closeLast : List Str → List Str
   | [c] => [c ++ c!"\""]
   | c :: cs => c :: closeLast cs
 
-def qualLines (k v : Str) (bs : List Nat) : List Str :=
-  hang (spaces 21 ++ c!"/" ++ k ++ c!"=\"") 21 (closeLast (valueChunks k v bs))
+/-- a value may be written without quotes when it is not empty and holds no blank (`/codon_start=1`) -/
+def canUnquote (v : Str) : Bool := v != [] && !List.elem ' ' v
 
-def qualsLines : List (Str × Str) → List (List Nat) → List Str
-  | [], _ => []
-  | (k, v) :: qs, ls => qualLines k v (ls.headD []) ++ qualsLines qs ls.tail
+/-- the lines of one qualifier.  `style` 2 and an empty value: `/key`; `style` 1 and a value that
+`canUnquote`: `/key=value` on one line; otherwise `/key="value"`, wrapped -/
+def qualLines (k v : Str) (bs : List Nat) (style : Nat) : List Str :=
+  if style = 2 ∧ v = [] then [spaces 21 ++ c!"/" ++ k]
+  else if style = 1 ∧ canUnquote v = true then [spaces 21 ++ c!"/" ++ k ++ c!"=" ++ v]
+  else hang (spaces 21 ++ c!"/" ++ k ++ c!"=\"") 21 (closeLast (valueChunks k v bs))
+
+def qualsLines : List (Str × Str) → List (List Nat) → List Nat → List Str
+  | [], _, _ => []
+  | (k, v) :: qs, ls, sts => qualLines k v (ls.headD []) (sts.headD 0) ++ qualsLines qs ls.tail sts.tail
 
 def featLines (f : RFeature) (ℓ : FeatLayout) : List Str :=
-  hang (padRight (spaces 5 ++ f.key) 21) 21 (cutLoc ℓ.loc f.loc) ++ qualsLines f.quals ℓ.quals
+  hang (padRight (spaces 5 ++ f.key) 21) 21 (cutLoc ℓ.loc f.loc) ++ qualsLines f.quals ℓ.quals ℓ.styles
 
 def featsLines : List RFeature → List FeatLayout → List Str
   | [], _ => []
@@ -244,17 +261,44 @@ def originLines (seq : Str) (blockLen perLine : Nat) : List Str :=
 /-- the header line of the feature table -/
 def featuresHeader : Str := c!"FEATURES             Location/Qualifiers"
 
+/-- a standard keyword block that may be left out when its text is empty -/
+def mblock (om : Bool) (kw t : Str) (bs : List Nat) : List Str :=
+  if om = true ∧ t = [] then [] else block kw t bs
+
+/-- SOURCE with its mandatory sub-keyword ORGANISM; both left out together when both are empty -/
+def sourceBlock (om : Bool) (src org : Str) (bs bo : List Nat) : List Str :=
+  if om = true ∧ src = [] ∧ org = [] then [] else block c!"SOURCE" src bs ++ block c!"  ORGANISM" org bo
+
+/-- where slot `k` of the extra keyword blocks starts -/
+def off (cs : List Nat) : Nat → Nat
+  | 0 => 0
+  | k + 1 => off cs k + cs.getD k 0
+
+/-- the extra keyword blocks written in slot `k` (0: after LOCUS … 5: before the first REFERENCE);
+the blocks keep the order of the record -/
+def extraSlot (r : GbRec) (ℓ : RecLayout) (k : Nat) : List Str :=
+  extrasLines ((r.extras.drop (off ℓ.extraCuts k)).take (ℓ.extraCuts.getD k 0)) (ℓ.extras.drop (off ℓ.extraCuts k))
+
+/-- the extra keyword blocks after the references: all that are left -/
+def extraRest (r : GbRec) (ℓ : RecLayout) : List Str :=
+  extrasLines (r.extras.drop (off ℓ.extraCuts 6)) (ℓ.extras.drop (off ℓ.extraCuts 6))
+
 /-- the lines of one record, `//` included -/
 def layout (r : GbRec) (ℓ : RecLayout) : List Str :=
   [locusLine r.locus r.seq.length ℓ]
-  ++ block c!"DEFINITION" r.definition ℓ.definition
-  ++ block c!"ACCESSION" r.accession ℓ.accession
-  ++ block c!"VERSION" r.version ℓ.version
-  ++ block c!"KEYWORDS" r.keywords ℓ.keywords
-  ++ block c!"SOURCE" r.source ℓ.source
-  ++ block c!"  ORGANISM" r.organism ℓ.organism
+  ++ extraSlot r ℓ 0
+  ++ mblock ℓ.omitDefinition c!"DEFINITION" r.definition ℓ.definition
+  ++ extraSlot r ℓ 1
+  ++ mblock ℓ.omitAccession c!"ACCESSION" r.accession ℓ.accession
+  ++ extraSlot r ℓ 2
+  ++ mblock ℓ.omitVersion c!"VERSION" r.version ℓ.version
+  ++ extraSlot r ℓ 3
+  ++ mblock ℓ.omitKeywords c!"KEYWORDS" r.keywords ℓ.keywords
+  ++ extraSlot r ℓ 4
+  ++ sourceBlock ℓ.omitSource r.source r.organism ℓ.source ℓ.organism
+  ++ extraSlot r ℓ 5
   ++ refsLines 0 r.refs ℓ.refs
-  ++ extrasLines r.extras ℓ.extras
+  ++ extraRest r ℓ
   ++ [featuresHeader]
   ++ featsLines r.features ℓ.feats
   ++ [if ℓ.originTrail then c!"ORIGIN      " else c!"ORIGIN"]
@@ -331,15 +375,57 @@ def distinct : List Str → Bool
 def isFeatKeyChar (c : Char) : Bool := isLetter c || isDigit c || c == '_' || c == '-' || c == '\''
 def isLocChar (c : Char) : Bool :=
   isLetter c || isDigit c || c == '.' || c == ',' || c == '(' || c == ')' || c == '<' || c == '>' || c == '^' || c == ':'
-def isQualKeyChar (c : Char) : Bool := isLower c || isDigit c || c == '_'
+/-- qualifier keys: letters of either case, digits, '_' (`EC_number`, `PCR_primers`, `db_xref`) -/
+def isQualKeyChar (c : Char) : Bool := isLetter c || isDigit c || c == '_'
 
 def wfQual (q : Str × Str) : Bool :=
   q.1 != [] && q.1.all isQualKeyChar && q.2.all (fun c => isPrint c && c != '"')
 
+/-! Location texts: one INSDC-shaped expression — an atom (`12`, `1..5`, `<1..>9`, `102.110`, `1^2`,
+`J00194.1:100..202`) or `operator(loc,loc,…)` for any operator word (`join`, `order`, `bond`, `gap`, …),
+`complement` taking exactly one operand.  Texts with unbalanced or stray parentheses are outside the domain. -/
+
+def isAtomChar (c : Char) : Bool := isLocChar c && c != '(' && c != ')' && c != ','
+
+mutual
+/-- consume one location expression, return what follows it -/
+def locRest : Nat → Str → Option Str
+  | 0, _ => none
+  | f + 1, s =>
+    let w := s.takeWhile isAtomChar
+    match s.dropWhile isAtomChar with
+    | '(' :: r1 =>
+      match argsRest f r1 with
+      | some (n, ')' :: r2) => if w = c!"complement" ∧ n ≠ 1 then none else some r2
+      | _ => none
+    | r => if w = [] then none else some r
+/-- consume `loc (, loc)*`, return the number of operands and what follows -/
+def argsRest : Nat → Str → Option (Nat × Str)
+  | 0, _ => none
+  | f + 1, s =>
+    match locRest f s with
+    | some (',' :: r) => (argsRest f r).map fun p => (p.1 + 1, p.2)
+    | some r => some (1, r)
+    | none => none
+end
+
+def isLocText (s : Str) : Bool := s.all isLocChar && locRest (s.length + 1) s == some []
+
+/-- a feature, except that its qualifier keys need not be distinct -/
+def wfFeatureLoose (f : RFeature) : Bool :=
+  f.key != [] && f.key.length ≤ 15 && f.key.all isFeatKeyChar
+    && f.loc != [] && f.loc.all isLocChar
+    && f.quals.all wfQual && isLocText f.loc
+
+/-- `poly.Feature.Attributes` is a `map[string]string`: of several qualifiers with the same key only
+the last survives (known finding C01-repeated-qualifier-key), so the theorems ask for distinct keys -/
 def wfFeature (f : RFeature) : Bool :=
   f.key != [] && f.key.length ≤ 15 && f.key.all isFeatKeyChar
     && f.loc != [] && f.loc.all isLocChar
-    && f.quals.all wfQual && distinct (f.quals.map (·.1))
+    && f.quals.all wfQual && distinct (f.quals.map (·.1)) && isLocText f.loc
+
+/-- kf C01-repeated-qualifier-key: some feature repeats a qualifier key -/
+def repeatedQualKey (r : GbRec) : Bool := r.features.any (fun f => !distinct (f.quals.map (·.1)))
 
 /-- the property's quantifier as a decidable predicate on abstract records -/
 def wf (r : GbRec) : Bool :=
@@ -349,6 +435,16 @@ def wf (r : GbRec) : Bool :=
     && r.refs.all wfRef
     && r.extras.all (fun e => isExtraKey e.1 && isText e.2) && distinct (r.extras.map (·.1))
     && r.features.all wfFeature
+    && r.seq.all isLetter && r.seq.length < 100000000
+
+/-- the property's quantifier including features with repeated qualifier keys (what the check judges) -/
+def wfLoose (r : GbRec) : Bool :=
+  wfLocus r.locus
+    && isText r.definition && isText r.accession && isText r.version && isText r.keywords
+    && isText r.source && isText r.organism
+    && r.refs.all wfRef
+    && r.extras.all (fun e => isExtraKey e.1 && isText e.2) && distinct (r.extras.map (·.1))
+    && r.features.all wfFeatureLoose
     && r.seq.all isLetter && r.seq.length < 100000000
 
 def WF (r : GbRec) : Prop := wf r = true
